@@ -201,6 +201,12 @@ def run_crosshair(path: str, source: str, func: str, pct: int, ppt: int, wall: i
     m = None
     for ln in text.split("\n"):
         m = _RX_CEX.search(_RX_RET.sub("", ln)) or m
+    if m is None and " when calling " in text and ": error: " in text:
+        # exception messages may span several lines (lark's "Expected one of ..."): take the last call on the last line
+        head, _, tail = text.rpartition(" when calling ")
+        m2 = re.match(r"(\w+)\((.*)\)\s*$", _RX_RET.sub("", tail.strip().split("\n")[-1]) if "\n" in tail.strip() else _RX_RET.sub("", tail.strip()))
+        if m2:
+            return CEX, head.split(": error: ", 1)[-1][:400], m2.group(2), dt
     if m:
         return CEX, m.group(2), m.group(4), dt
     if rc == -9:
@@ -303,14 +309,25 @@ def run_ob(prop: str, ob: Ob, scratch: str) -> Result:
     return r
 
 
-def run_twin(prop: str, ob: Ob, scratch: str) -> tuple[bool, Any, float]:
+def run_twin(prop: str, ob: Ob, scratch: str):
+    """reachability twin; its witness is additionally executed on the main harness in a plain interpreter: CrossHair models some
+    library behaviour differently from CPython (it disables functools.lru_cache, has its own `re`), so a harness that is
+    "confirmed" symbolically but fails concretely on the witness is a reproduced violation, not a pass"""
     path = os.path.join(scratch, re.sub(r"[^A-Za-z0-9_]", "_", ob.name) + "__twin.py")
     with open(path, "w") as f:
         f.write(ob.source)
     verdict, detail, argtext, dt = run_crosshair(path, ob.source, ob.func + "__reach", ob.pct, ob.ppt, ob.timeout)
     if verdict == CEX:
-        return True, argtext, dt
-    return False, f"{verdict}: {detail}"[:300], dt
+        parsed = _parse_args(argtext)
+        if parsed is not None:
+            wpath = os.path.join(scratch, re.sub(r"[^A-Za-z0-9_]", "_", ob.name) + "__witness.py")
+            with open(wpath, "w") as f:
+                f.write(ob.source + REPLAY_MAIN % (parsed[0], parsed[1], ob.func))
+            failed, out = run_replay(wpath)
+            if failed:
+                return True, argtext, dt, (parsed, out)
+        return True, argtext, dt, None
+    return False, f"{verdict}: {detail}"[:300], dt, None
 
 
 # ---------------------------------------------------------------------------------------------
@@ -353,7 +370,7 @@ def run_check(prop: str, tier: str, seed: int, obs: list[Ob], info: dict) -> int
                 try:
                     val = fu.result()
                 except Exception as exn:  # harness infrastructure failure
-                    val = Result(ob, ERROR, detail=repr(exn)) if kind == "main" else (False, repr(exn), 0.0)
+                    val = Result(ob, ERROR, detail=repr(exn)) if kind == "main" else (False, repr(exn), 0.0, None)
                 if kind == "main":
                     results.append(val)
                 else:
@@ -366,10 +383,16 @@ def run_check(prop: str, tier: str, seed: int, obs: list[Ob], info: dict) -> int
     proved = inconclusive = 0
     for r in results:
         if r.ob.kind == "ch" and r.ob.twin and not r.ob.expect_cex and r.verdict == PROVED:
-            ok, wit, dt = twins.get(r.ob.name, (False, "twin missing", 0.0))
+            ok, wit, dt, concrete_fail = twins.get(r.ob.name, (False, "twin missing", 0.0, None))
             r.solver_s += dt
             r.queries += 1
-            if ok:
+            if ok and concrete_fail is not None:
+                # symbolically confirmed, but the witness fails on the real interpreter: a reproduced counterexample
+                parsed, out = concrete_fail
+                r.verdict, r.cex_args, r.reproduced, r.replay_out = CEX, wit, True, out
+                r.detail = "harness fails in plain CPython on the twin's witness (behaviour CrossHair models differently, e.g. caches)"
+                r.replay_path = write_replay(prop, r.ob, parsed[0], parsed[1])
+            elif ok:
                 r.witness = wit
             else:
                 r.verdict, r.detail = VACUOUS, f"reachability twin found no witness ({wit})"
